@@ -28,7 +28,7 @@ KANI = 'Kani harness-contracts (assume pre / call the real fn / assert post) and
 
 P('C01',
   assumptions=[ARITH, A1, A2, A7],
-  level_text='Every function between the property and the code carries a contract discharged for all well-formed boards, both sides, all statuses and step indices: freezing/threat masks and edge-masked shifts against per-square neighbour arithmetic; the three generators against the mailbox rule spec (simple_step, push_start, pull_complete, push_complete) with the bit-set->list seam cut by contract (Verus proves the seam); can_pass(false); the assembly of valid_actions_ against the generator contracts (order, pull de-duplication, pass, no duplicates); the status state machine and its invariant (a pending push always has a completion).',
+  level_text='Every function between the property and the code carries a contract discharged for all well-formed boards, both sides, all statuses and step indices: freezing/threat masks and edge-masked shifts against per-square neighbour arithmetic; the three generators against the mailbox rule spec (simple_step, push_start, pull_complete, push_complete) with the bit-set->list seam cut by contract (Verus proves the seam); can_pass(false); the assembly of valid_actions_ against the generator contracts (content as a set, pull de-duplication, pass, no duplicates, every listed action a legal step from a real square); the status state machine and its invariant (a pending push always has a completion).',
   level_note='List layer rests on A1 (std Vec semantics) and on the seam contract proved by Verus (A7); clause (d) of DESIGN C01 (grammar lemma: greedy acceptor == parse into single steps/pushes/pulls) is not discharged and not claimed. No bound on boards.',
   technique=KANI + '; Verus for the seam loop')
 P('C02',
@@ -59,7 +59,7 @@ P('C07',
 P('C08',
   assumptions=[ARITH, A2, A7],
   level_text='Every transition obligation proves the hash update in difference form (hash\' == hash ^ side switch ^ STEP change ^ board delta), place/pass/exclude_step/transposition_hash are proved as XOR algebra over the real tables, Eq/Hash use exactly the board-state hash, recorded history entries are the new turn-start hashes.',
-  level_note='The board delta piece_board_value == Hb(prev)^Hb(new) and from_piece_board == H(board,side,step) are Verus obligations on the extracted real loops; until those units are discharged in a run they are listed as assumed in the evidence.',
+  level_note='The board delta piece_board_value == Hb(prev)^Hb(new) and from_piece_board == H(board,side,step) are Verus obligations on the mechanically extracted real loops (units pbv, fpb; real piece_value, Square::index, bits_for_piece and the real constant tables are extracted and verified there too; the seam is a contracted external proved in unit seam). A bounded concrete companion (eight capture scenarios) exists only to give a failing input when those units lose their anchors.',
   technique=KANI + '; Verus for the hashing loops')
 P('C09',
   assumptions=[ARITH, A2],
